@@ -79,7 +79,10 @@ func candidates(root *Node) []*Node {
 		out = append(out, c)
 	}
 	for _, p := range paths {
-		n, _, _ := get(root, p)
+		n, parent, idx := get(root, p)
+		if parent != nil && parent.K == KCondExpr && idx == 0 {
+			continue // the condition of an expression conditional stays a look-around (its content still shrinks)
+		}
 		switch n.K {
 		case KAlt, KConcat:
 			if len(n.Kids) > 1 {
